@@ -8,7 +8,7 @@ Open Scope Z_scope.
 Definition rd_waiting (p : rpc) : bool := match p with RState | RArm | RParked => true | _ => false end.
 Definition rd_pre (p : rpc) : bool := match p with RIdle | RCheck | RState | RArm | RDone => true | _ => false end.
 Definition lc_mid_open (l : lpc) : bool :=
-  match l with LCased SOpen | LCleaned SOpen | LCased SLocalHalf | LCleaned SLocalHalf => true | _ => false end.
+  match l with LCased SOpen | LCased SLocalHalf => true | _ => false end.
 
 (* the wake-up part: holds for EVERY schedule, including the two-step timer expiry FireA / FireB *)
 Record WInv (s : st) : Prop := {
@@ -73,20 +73,20 @@ Ltac fld := cbn in *; intros; norm; rewrite ?orb_false_r, ?orb_true_r in *;
 Lemma winv_step : forall s e, WInv s -> WInv (step s e).
 Proof.
   intros s e [h1 h2 h3 h8 h9].
-  destruct s as [pend0 rbuf0 token0 closeN0 ss0 epc0 ppc0 lc0 sclosing0 dpc0 now0 dl0 tmr0 tch0 ptick0 use_t0 armed0 rd0 minsz0 res0].
+  destruct s as [pend0 rbuf0 token0 closeN0 ss0 epc0 ppc0 lc0 sclosing0 dpc0 cbmode0 now0 dl0 tmr0 tch0 ptick0 use_t0 armed0 rd0 minsz0 res0].
   cbn in h1, h2, h3, h8, h9.
-  destruct e; cbn [step]; unfold reader_step, wake, take_tick, finish_early, finish_late, move_to, set_rd;
-    cbn [pend rbuf token closeN ss epc ppc lc sclosing dpc now dl tmr tch ptick use_t armed rd minsz res];
+  destruct e; unfold step; cbn [step_gen]; unfold cb_busy, reader_step, wake, take_tick, finish_early, finish_late, move_to, set_rd;
+    cbn [pend rbuf token closeN ss epc ppc lc sclosing dpc cbmode now dl tmr tch ptick use_t armed rd minsz res];
     brk; constructor; fld.
 Qed.
 
 Lemma tinv_step : forall s e, TInv s -> TInv (step s e).
 Proof.
   intros s e [h4 h5 h7].
-  destruct s as [pend0 rbuf0 token0 closeN0 ss0 epc0 ppc0 lc0 sclosing0 dpc0 now0 dl0 tmr0 tch0 ptick0 use_t0 armed0 rd0 minsz0 res0].
+  destruct s as [pend0 rbuf0 token0 closeN0 ss0 epc0 ppc0 lc0 sclosing0 dpc0 cbmode0 now0 dl0 tmr0 tch0 ptick0 use_t0 armed0 rd0 minsz0 res0].
   cbn in h4, h5, h7.
-  destruct e; cbn [step]; unfold reader_step, wake, take_tick, finish_early, finish_late, move_to, set_rd;
-    cbn [pend rbuf token closeN ss epc ppc lc sclosing dpc now dl tmr tch ptick use_t armed rd minsz res];
+  destruct e; unfold step; cbn [step_gen]; unfold cb_busy, reader_step, wake, take_tick, finish_early, finish_late, move_to, set_rd;
+    cbn [pend rbuf token closeN ss epc ppc lc sclosing dpc cbmode now dl tmr tch ptick use_t armed rd minsz res];
     brk; constructor; fld.
 Qed.
 
